@@ -452,14 +452,14 @@ def oracle_c12(case, reply):
             return "notstring"
         nm = a[1:]
         for f in fs:
-            if f[0] == nm:
+            if f[0] == nm and nm != "_":       # a blank field cannot be referred to (Go spec)
                 return "prevented" if f[2] else f
         return "notfield"
     want = None
     if mode == "fieldsof" and nf < len(args):
         want = "err toomany"
     elif mode == "struct" and args == ["=*"]:
-        sel = [f for f in fs if not f[2]]
+        sel = [f for f in fs if not f[2] and f[0] != "_"]
     else:
         sel = []
         for a in args:
